@@ -1336,9 +1336,9 @@ pub fn lane_stream_layers(seed: u64) -> Vec<Scenario> {
                         let fd = if matching { 2 } else { 1 };
                         sim.programs.insert(
                             t3.nonce.clone(),
-                            // (the blank makes the line unfit as a generated expectation: the test
+                            // (the tab makes the line unfit as a generated expectation: the test
                             // case gets none, and passes iff the stream it looks at is empty)
-                            vec![Op::Out { fd, data: format!("only {}\n", &t3.nonce[..6]).as_str().into() }, Op::Status { code: 0 }],
+                            vec![Op::Out { fd, data: format!("only\t{}\n", &t3.nonce[..6]).as_str().into() }, Op::Status { code: 0 }],
                         );
                         t3.cfg.output_stream = inline;
                         let mut d = doc("layers.md", Format::Md, vec![t, t2, t3]);
